@@ -73,9 +73,12 @@ def rule_trace_distance_shape(ctx: Ctx) -> None:
     pure_if = [n for n in ast.walk(fn) if isinstance(n, ast.If) and "is_pure" in norm(n.test)]
     ok = False
     if pure_if:
-        t = norm(pure_if[0].test)
-        both = f"is_pure({a})" in t and f"is_pure({b})" in t and isinstance(pure_if[0].test, ast.BoolOp) and isinstance(pure_if[0].test.op, ast.Or)
-        r = [x for x in pure_if[0].body if isinstance(x, ast.Return)]
+        from ..chains import positive
+        pt, negated = positive(pure_if[0].test)
+        t = norm(pt)
+        both = f"is_pure({a})" in t and f"is_pure({b})" in t and isinstance(pt, ast.BoolOp) and isinstance(pt.op, ast.Or)
+        arm = pure_if[0].orelse if negated else pure_if[0].body
+        r = [x for x in arm if isinstance(x, ast.Return)]
         tr = [c for c in calls_in(r[0]) if call_attr(c) == "trace"] if r else []
         prod = tr and isinstance(tr[0].args[0], ast.BinOp) and isinstance(tr[0].args[0].op, ast.MatMult) \
             and {norm(tr[0].args[0].left), norm(tr[0].args[0].right)} == {a, b}
